@@ -65,6 +65,15 @@ def sqrt2 : Dbl := ⟨false, 0x3FF6A09E667F3BCD⟩
 
 end Dbl
 
+instance : Add Dbl := ⟨Dbl.add⟩
+instance : Sub Dbl := ⟨Dbl.sub⟩
+instance : Mul Dbl := ⟨Dbl.mul⟩
+instance : Div Dbl := ⟨Dbl.div⟩
+
+/-- the unit value `Prior.random` maps, on doubles as data: the generic `randomUnit`
+(`max(lo, a) + (min(hi, b) - max(lo, a)) * r`, Python's `random.uniform`) at the number type `Dbl` -/
+def randomUnitD (lo hi a b r : Dbl) : Dbl := randomUnit lo hi a b r
+
 /-- `1 - 2.0 * (1.0 - unit)`: what `NormalMessage.value_for` passes to `erfinv` -/
 def argD (u : Dbl) : Dbl := Dbl.sub Dbl.one (Dbl.mul Dbl.two (Dbl.sub Dbl.one u))
 
